@@ -8,7 +8,8 @@ CHECKS = {
          "every operation history of depth 3 over a 61-instance operation set and the observer record of every "
          "list; every history is replayed on OrderedMultiDict/PVLModule/PVLGroup/PVLObject with the full observer "
          "record compared after each step; seeded random walks recorded from the real containers are judged by TLC "
-         "(spec/Trace_MultiDict.tla) event by event.",
+         "(spec/Trace_MultiDict.tla) event by event.  A second pass runs the histories on a container that is replaced before every step by a copy of itself "
+         "(constructor from a container, .copy(), copy.copy, extend of an empty one) while the old object goes its own way.",
     design_ref="DESIGN.md section 3 C10",
     note="Trusts TLC, the CommunityModules Json module and the projection function harness/props/c10.py:observe "
          "(public read API only). Keys/values are short strings; histories are exhaustive to depth 3 (4 in thorough, reduced op set), sampled beyond.",
@@ -17,7 +18,9 @@ CHECKS = {
     text="TLC explores spec/MC_Heap.tla (containers as heap objects: build a nested container, Copy with one of 9 "
          "mechanisms - .copy(), copy.copy, copy.deepcopy, pickle protocols 0-5 -, mutate either side), checks CopyEqual, "
          "OrigIntact, ClassesKept and Independent on the model and prints every behaviour with the expected tree "
-         "projection of both roots after each step; each behaviour is replayed on real containers of all four classes.",
+         "projection of both roots after each step; each behaviour is replayed on real containers of all four classes.  Leaves include the non-string "
+         "values a loader produces (missing-value placeholder, Quantity, datetime, Decimal, int, frozenset); nested objects include lists (loaded sequences) and Quantities holding a list, "
+         "which deep copies and pickles must duplicate as well.",
     design_ref="DESIGN.md section 3 C11",
     note="Shallow mechanisms are only mutated at top level (whether nested objects are shared is left free); trees up to 3 objects x 2 items, 1-2 mutations; trusts harness/heapops.py:project.",
     technique="TLA+ heap model + TLC bounded model checking; spec->code behaviour replay"),
@@ -25,15 +28,16 @@ CHECKS = {
     text="TLC enumerates (module tree, dump/mutate script) cases from spec/MC_Dump.tla and model-checks the implementation-shaped "
          "PDS3 group->object conversion against DumpPure (pre-fix variant: counterexample; repaired variant: holds). Every script is run "
          "on real modules with the four encoders (via pvl.dumps and encoder.encode); every event (pre/post tree projection, text digest, "
-         "exception) is judged by TLC with spec/Trace_Dump.tla.",
+         "exception) is judged by TLC with spec/Trace_Dump.tla.  Scripts include plain pvl.dumps(m) (default encoder), values of a per-session numeric class, and 'other activity' between dumps: "
+         "other modules dumped, other encoders configured, the session's own encoder called with other options, its decoder shared with another encoder.",
     design_ref="DESIGN.md section 3 C13",
     note="Text equality is compared through 64-bit digests; repeatability is required between dumps with no mutation in between; the PDS3 relabel is permitted, not required.",
     technique="TLA+ heap model + TLC; code->spec trace validation of dump sessions"),
  "C16": dict(
-    text="TLC enumerates every call history of length 3 (4 in thorough) over an 8-input pool from spec/Session.tla and model-checks the "
+    text="TLC enumerates every call history of length 3 (4 in thorough) over a 12-input pool from spec/Session.tla and model-checks the "
          "implementation-shaped errors list (leaking variant: counterexample; resetting variant: holds). Each history is issued to one "
-         "long-lived instance of 27 parser/encoder/decoder kinds (classes plus the module-level instances of pvl_validate and "
-         "pvl_translate) next to fresh instances; TLC judges every call with spec/Trace_Session.tla.",
+         "long-lived instance of 30 parser/encoder/decoder kinds (classes, the module-level instances of pvl_validate and "
+         "pvl_translate, and instances used through pvl.loads(parser=)/pvl.dumps(encoder=) with per-call grammar=/decoder=/formatting arguments) next to fresh instances; TLC judges every call with spec/Trace_Session.tla.",
     design_ref="DESIGN.md section 3 C16",
     note="Outcomes are compared as digests of (projected module, errors, exception type/message/position); object addresses in messages are masked.",
     technique="TLA+ session model + TLC; code->spec trace validation of call histories"),
@@ -41,23 +45,29 @@ CHECKS = {
     text="TLC explores the reference grammar (spec/PvlGrammar.tla, a deterministic push-down machine with an explicit tree) over every "
          "token sequence <= 7 (8 thorough) whose proper prefixes are live - i.e. every truncation and every one-token dead extension - and prints "
          "the reference outcome of each; every sequence is spelled canonically in two layouts and loaded with the 5 parser configurations; "
-         "a module returned where the reference rejects is a violation.",
+         "a module returned where the reference rejects is a violation.  Character level: every string <= 4/3/3/5 over four PVL-significant alphabets (punctuation, control and non-ASCII "
+         "characters, numerals, comment delimiters) explored by TLC on the reference loader (spec/MC_Loader.tla); damaged labels: single-character deletions, replacements and truncations of generated "
+         "labels, judged against the reference loader by TLC (spec/Trace_Load.tla).",
     design_ref="DESIGN.md section 3 C05",
-    note="Token level only so far (one canonical spelling per token kind); the character-level loader spec extends this to free spellings and damaged real labels.",
+    note="Bounded: <= 7/8 tokens, <= 3-5 characters per alphabet, single edits of labels <= 2 statements.",
     technique="TLA+ push-down reference grammar + TLC bounded exhaustive exploration; spec->code replay of every explored token sequence"),
  "C06": dict(
     text="Same exploration as C05 (every token sequence the reference grammar explores, 5 configurations, 2 layouts), each load under a watchdog: "
-         "a hang or an exception other than LexerError/ParseError is a violation.",
-    design_ref="DESIGN.md section 3 C06",
-    note="Token level (<= 7/8 tokens) so far; termination is shown for the enumerated inputs only.",
+         "a hang or an exception other than LexerError/ParseError is a violation; plus the character-level strings and damaged labels of C05 and date/time boundary texts and lexicon mutations in value position. "
+         "Two implementation-shaped models: spec/ParserLoop.tla (parse_module + the Omni post hook at next/send/throw granularity; TLC proves Termination under weak fairness, OnlyDocumented and NothingSkipped for every "
+         "token input <= 5 and exhibits the pre-repair non-progress cycle) and spec/TokenStream.tla (the lexer generator's put-back protocol; NetStream, OnlyLexerErrors), the latter bound by trace validation of every "
+         "next/send/throw call the real parsers make (spec/Trace_TokenStream.tla, recording proxy passed as lexer_fn).",
+    design_ref="DESIGN.md section 3 C06 and R1.2",
+    note="Termination is shown for the enumerated inputs (watchdog on CPU time, a hang is confirmed with five times the budget) and, on the model, for every token input <= 5; the protocol verdicts are diagnostic.",
     technique="TLA+ push-down reference grammar + TLC bounded exhaustive exploration; spec->code replay under a watchdog"),
  "C08": dict(
     text="TLC explores the tolerant variant of the reference grammar (missing value after '=' before END, an end/begin keyword, ';', end of text, "
          "or a word that is itself followed by '='), with token i on line i; every explored sequence <= 7 (9 thorough) is loaded with the default and "
          "the ISIS configuration and must give the reference's statements, placeholders, line numbers and errors list; every text with a repaired value "
-         "must be rejected by the strict PVL/ODL/PDS3 parsers.",
+         "must be rejected by the strict PVL/ODL/PDS3 parsers.  Character level: spec/MC_Doc.tla (profile 'missing') generates labels with value-less assignments at every position under every layout "
+         "style and gap separator (blank lines, CR-LF, comments containing '=', a trailing comment after the last statement); statements, placeholders and line numbers must be the generated ones.",
     design_ref="DESIGN.md section 3 C08",
-    note="Token level, two layouts (one token per line; all on one line).",
+    note="Bounded: <= 7/9 tokens; labels <= 2-3 statements.",
     technique="TLA+ push-down reference grammar (tolerant variant) + TLC; spec->code replay"),
  "C14": dict(
     text="spec/PvlValues.tla holds the date/time recogniser and denotation per dialect (shapes, calendar validity, zones, leap seconds, PDS3 "
@@ -70,16 +80,17 @@ CHECKS = {
     technique="TLA+ value/calendar model + TLC bounded exhaustive enumeration; spec->code replay and code->spec judging of encoder output"),
  "C15": dict(
     text="Allowed(d, c) in spec/PvlValues.tla is the character table; the real char_allowed() of the 5 grammars is evaluated on all 1 114 112 code points "
-         "and every code point of every logged range is checked by TLC (spec/Trace_Chars.tla); TLC builds texts with a code point at 11 kinds of position "
+         "and every code point of every logged range is checked by TLC (spec/Trace_Chars.tla); TLC builds texts with a code point at 22 kinds of position "
          "(spec/MC_Chars.tla, with model-level theorems that a disallowed character before END is a lexical rejection at that character and that nothing "
-         "after END matters) and real loads are judged: LexerError iff disallowed before END, pos/lineno/colno mutually consistent and near the character.",
+         "after END matters; also the very first and last character of the text and positions after lone CRs and CR-LF line ends) and real loads are judged: LexerError iff disallowed before END, pos/lineno/colno mutually consistent and near the character.",
     design_ref="DESIGN.md section 3 C15",
     note="Positions use class representatives of the code space (every code point <= 0x17F plus 4096 seeded others in thorough).",
     technique="TLA+ character tables and loader + TLC exhaustive table check; trace judging of real loads"),
  "C17": dict(
     text="Classify(d, s) in spec/PvlValues.tla is the total, exclusive classification (TLC checks totality and the derived theorems over all token texts <= 4/5 "
          "over a 13-character alphabet, spec/MC_Class.tla); for every enumerated text and every single-edit mutation of a 110-word lexicon x 5 grammar/decoder "
-         "pairs the Token predicates, decode_simple_value outcome and encoder quoting decision are recorded and judged by TLC (spec/Trace_Class.tla).",
+         "pairs the Token predicates, the decoder's own sub-decoders, decode_simple_value outcome and encoder quoting decision are recorded and judged by TLC (spec/Trace_Class.tla); the token the real lexer yields "
+         "for the same text must carry the same predicates, and `<text> = 1` must not load when the text is a number or date.",
     design_ref="DESIGN.md section 3 C17",
     note="Domain: non-empty token texts without white space unless quoted.  Differences between the library's class and the reference class are reported under C03.",
     technique="TLA+ classification model + TLC bounded exhaustive enumeration; code->spec judging of classification records"),
@@ -88,7 +99,7 @@ CHECKS = {
          "position, real forms, both quote characters, unquoted words, dates/times/offsets, units, nested sets and sequences, BEGIN_/plain keywords in three "
          "letter cases, optional delimiters and end-statement names); TLC checks on the model that the reference loader (PvlLexer+PvlValues+PvlGrammar) reads "
          "exactly the generated tree for every label and layout; every label is loaded by the 5 parser configurations and compared with the generated tree. "
-         "The reference class of every enumerated token text is also compared with the library's class.",
+         "The reference class of every enumerated token text is also compared with the library's class.  A seeded family of random walks through the generator (TLC -simulate) adds longer labels.",
     design_ref="DESIGN.md section 3 C03",
     note="One statement per label is spelled from the full tables, the others canonically; <= 3 statements (4 thorough), nesting <= 2; numeric denotation (int(), float()) is trusted to Python.",
     technique="TLA+ generator + reference loader, reader=writer model-checked by TLC; spec->code replay"),
@@ -96,14 +107,16 @@ CHECKS = {
     text="Same generator (profile 'layout'): for every gap of every generated label every separator of the dialect's separator table (white-space characters, runs, "
          "comments with hostile content, '#' comments) or its removal where optional, plus 3 global styles; TLC checks layout independence of the reference on the "
          "model; every text is loaded by the real parser and must give the generated tree.  The tests/data corpus is re-laid-out at the reference lexer's token "
-         "boundaries (computed by TLC) with seeded separators and must load to the same module.",
+         "boundaries (computed by TLC) with seeded separators and must load to the same module.  Configurations whose grammar and decoder are different objects or dialects (reachable through "
+         "grammar=/decoder=) are judged metamorphically: every layout of a label must load exactly as its plainest layout.",
     design_ref="DESIGN.md section 3 C04",
     note="A '#' comment that is not set off by white space or not ended by a line end, and white space after a units expression, are outside the statement and not generated.",
     technique="TLA+ generator + reference loader + TLC; spec->code replay; metamorphic re-layout of real labels at TLC-computed token boundaries"),
  "C01": dict(
     text="TLC generates modules (spec/MC_Module.tla: a value lexicon on the class borders of the dialects x positions, plus duplicate keys, group/object mixes, unusual names), "
          "checks that Norm (spec/PvlNorm.tla: the documented normalisations) is idempotent, and computes Norm(E, E, m) for every dump; the real encoders write every module under a grid of "
-         "option combinations; the strict loader of the same dialect must return Norm(E, E, m); the reference reader (TLC) reads the same text, which separates encoder faults from loader faults.",
+         "option combinations; the strict loader of the same dialect must return Norm(E, E, m); the reference reader (TLC) reads the same text, which separates encoder faults from loader faults.  A reference writer "
+         "(spec/PvlWriter.tla; TLC checks reader o writer = Norm on the model) is compared literally with the real encoders' default output as a binding report.",
     design_ref="DESIGN.md section 3 C01",
     note="Refusal with ValueError/TypeError is always allowed; floats and ints are compared by value (Python's int()/float() trusted).",
     technique="TLA+ normalisation model + reference reader, TLC; code->spec judging of encoder output and reload comparison"),
@@ -128,13 +141,15 @@ CHECKS = {
  "C12": dict(
     text="Every text written by the real encoders for the C01 module generator and option grid is one trace judged by TLC (spec/Trace_Output.tla): the reference lexer and strict grammar of the "
          "encoder's dialect read it; layout predicates over token positions and gaps check characters, well-formedness, END tail, white space, statement indentation, '=' alignment, keyword spelling, "
-         "end-statement names, delimiters and ODL parameter names.",
+         "end-statement names, delimiters and ODL parameter names.  Modules the loader produces from the tests/data corpus are judged the same way; encoders that fix their own grammar are also run with only a "
+         "decoder of another dialect handed in.",
     design_ref="DESIGN.md section 3 C12",
     note="Alignment of statements that do not fit on one line, where long values are broken and which quote character is used are left free.",
     technique="TLA+ reference reader + layout predicates evaluated by TLC on recorded encoder output (trace validation)"),
  "C18": dict(
     text="spec/MC_Doc.tla (profile 'hooks') generates labels with reals at every grammar position and states, with Retag, the tree each hook combination must yield (TLC checks that retagging changes "
-         "nothing else); the labels are loaded with PVL/ODL/ISIS/default parsers x {Decimal; recording str subclass + recording quantity class + subclassed containers; Fraction} and compared.",
+         "nothing else); the labels are loaded with PVL/ODL/ISIS/default parsers x {Decimal; recording str subclass + recording quantity class + subclassed containers; Fraction; a quantity class that refuses the "
+         "units, where the load must fail rather than drop them} and compared.",
     design_ref="DESIGN.md section 3 C18",
     note="PDSLabelDecoder takes no real_cls and is not exercised with one.",
     technique="TLA+ generator with Retag + TLC; spec->code replay"),
@@ -145,7 +160,7 @@ CHECKS = {
     note="Texts with missing values are excluded (not well-formed).",
     technique="TLA+ front-end model, TLC; code->spec trace judging (differential)"),
  "C20": dict(
-    text="TLC enumerates tool invocations over a pool of generated, damaged, missing-value and corpus files (spec/MC_Frontends.tla); pvl_translate and pvl_validate main() are run in-process, the "
+    text="TLC enumerates tool invocations over a pool of generated, damaged, missing-value and corpus files, files with a byte order mark, undecodable bytes after END, deep nesting, sets of quantities (spec/MC_Frontends.tla); pvl_translate and pvl_validate main() are run in-process, the "
          "library calls they front are made separately on fresh instances, and TLC judges text by text and cell by cell (spec/Trace_Frontends.tla over spec/Frontends.tla), including the JSON document's names and values.",
     design_ref="DESIGN.md section 3 C20",
     note="In-process invocation (argv lists); report text parsed by splitting on '|'.",
